@@ -150,6 +150,24 @@ def run(ck):
                 ok = False
     ck.ob("R3", "apply_splitting:rebuild-after-split", ok, m.where(fn),
           "a block added by splitting can reach the end of apply_splitting without rebuild_edges (its edges would be missing)")
+    # after a split the head (still `cur_block`, now shorter) must keep being scanned against the remaining destinations,
+    # or be queued again: leaving the scan loop at that point abandons the destinations that fall into the head
+    inner = [n for n in walk_body(fn) if isinstance(n, ast.For) and any(
+        isinstance(c, ast.Call) and isinstance(c.func, ast.Attribute) and c.func.attr == "split" for c in walk_local(n))]
+    ok = bool(inner)
+    for lp in inner:
+        bcfg = CFG(lp.body)
+        sp = [nd for nd in bcfg.nodes if any(isinstance(c.func, ast.Attribute) and c.func.attr == "split" for c in node_calls(nd))]
+        recv = norm([c for nd in sp for c in node_calls(nd) if isinstance(c.func, ast.Attribute) and c.func.attr == "split"][0].func.value) if sp else "?"
+        requeue = [nd for nd in bcfg.nodes if any(dotted(c.func) == "todo.add" and c.args and norm(c.args[0]) == recv for c in node_calls(nd))]
+        for nd in bcfg.nodes:
+            if nd.kind == "stmt" and isinstance(nd.ast, ast.Break) and any(bcfg.can_reach(s_.id, nd.id) for s_ in sp):
+                # a break after the split is acceptable only if the head was queued again on the way
+                if not any(bcfg.can_reach(r.id, nd.id) and any(bcfg.can_reach(s_.id, r.id) for s_ in sp) for r in requeue):
+                    ok = False
+    ck.ob("R3", "apply_splitting:head-rescanned", ok, m.where(fn),
+          "after splitting `cur_block` the scan over the pending destinations is abandoned (break) without queueing the head again: "
+          "a destination inside the head that comes later in the list never starts a block")
     pw = [nd for nd in cfg2.nodes if nd.kind == "stmt" and isinstance(nd.ast, ast.Assign) and any(
         isinstance(t, ast.Subscript) and isinstance(t.value, ast.Attribute) and t.value.attr in ("pendings", "_pendings") for t in nd.ast.targets)]
     ok = True
